@@ -40,9 +40,12 @@ def draw_style(rs) -> Dict:
         return {"name": "wide", "max_terms": 9}
     if r < 0.8:
         return {"name": "large", "scales": [1.0, 1e3, 1e5]}
-    if r < 0.9:
+    if r < 0.88:
         return {"name": "tiny", "scales": [1.0, 1e-3, 1e-4]}
-    return {"name": "mixed", "scales": [1e-3, 1.0, 1.0, 1e3]}
+    if r < 0.95:
+        return {"name": "mixed", "scales": [1e-3, 1.0, 1.0, 1e3]}
+    # badly scaled systems: this is where HiGHS itself answers status 4 ("numerical difficulties") on real inputs
+    return {"name": "wild", "scales": [1e-8, 1e-4, 1.0, 1e5, 1e11]}
 
 
 def _scale(rs) -> float:
@@ -531,9 +534,13 @@ def gen_step(rs, view: View, allowed_ops: List[str], weights: Optional[Dict[str,
         keep = _subset(rs, internal, 0.3) + _subset(rs, [v for v in view.outs(a) + view.outs(b) if v not in internal], 0.05)
         if rs.random() < 0.04:
             keep.append(rs.choice(NAMES))
+        keep = list(dict.fromkeys(keep))
+        if rs.random() < 0.06:
+            pool_k = keep or internal or view.outs(a)
+            keep = keep + [x for x in rs.sample(pool_k, min(len(pool_k), rs.choice([1, 2])))]  # repeated names
         A["self"] = {"slot": a}
         A["other"] = {"slot": b}
-        A["keep"] = _lit(list(dict.fromkeys(keep)))
+        A["keep"] = _lit(keep)
         A["simplify"] = _lit(rs.random() < 0.7)
         if name == "compose_tactics":
             A["tactics_order"] = _lit(rs.choice(TACTIC_ORDERS))
@@ -554,7 +561,10 @@ def gen_step(rs, view: View, allowed_ops: List[str], weights: Optional[Dict[str,
             addl.append(rs.choice(NAMES))
         A["self"] = {"slot": a}
         A["other"] = {"slot": b}
-        A["addl"] = _lit([Var(x) for x in dict.fromkeys(addl)]) if (addl or rs.random() < 0.5) else _lit(None)
+        addl = list(dict.fromkeys(addl))
+        if rs.random() < 0.06 and cand:
+            addl = addl + rs.sample(addl or cand, min(len(addl or cand), rs.choice([1, 2])))  # repeated names
+        A["addl"] = _lit([Var(x) for x in addl]) if (addl or rs.random() < 0.5) else _lit(None)
         A["simplify"] = _lit(rs.random() < 0.7)
         if name == "quotient_tactics":
             A["tactics_order"] = _lit(rs.choice(TACTIC_ORDERS))
@@ -678,11 +688,14 @@ def gen_step(rs, view: View, allowed_ops: List[str], weights: Optional[Dict[str,
         d = machine_dict_of(view.pool[ci])
         if rs.random() < 0.3:
             # well-kinded but semantically odd records
-            odd = rs.choice(["dup_in", "both", "undeclared", "zero", "empty_in", "huge", "drop_decl"])
+            odd = rs.choice(["dup_in", "dup2", "both", "undeclared", "zero", "empty_in", "huge", "drop_decl"])
             allv = d["input_vars"] + d["output_vars"]
             clauses = d["assumptions"] + d["guarantees"]
             if odd == "dup_in" and d["input_vars"]:
                 d["input_vars"].append(d["input_vars"][0])
+            elif odd == "dup2":
+                side = d["input_vars"] if len(d["input_vars"]) >= 2 else d["output_vars"]
+                side.extend(side[:2] if rs.random() < 0.5 else side[:2][::-1])
             elif odd == "both" and d["output_vars"]:
                 d["input_vars"].append(d["output_vars"][0])
             elif odd == "undeclared" and clauses:
@@ -719,8 +732,12 @@ def gen_step(rs, view: View, allowed_ops: List[str], weights: Optional[Dict[str,
             A["assumptions"] = {"slot": li} if rs.random() < 0.3 else {"lit": c[2]}
             A["guarantees"] = {"slot": lj} if rs.random() < 0.3 else {"lit": c[3]}
             ins, outs = list(c[0]), list(c[1])
-            if rs.random() < 0.1:
+            r_c = rs.random()
+            if r_c < 0.1:
                 ins.append(rs.choice(NAMES))
+            elif r_c < 0.16:
+                side = ins if (ins and rs.random() < 0.5) else outs
+                side.extend(rs.sample(side, min(len(side), rs.choice([1, 2]))))  # one or two names repeated
             A["input_vars"] = _lit([Var(x) for x in ins])
             A["output_vars"] = _lit([Var(x) for x in outs])
         A["simplify"] = _lit(rs.random() < 0.6)
